@@ -126,6 +126,8 @@ func main() {
 			strokeCase(o, r, i)
 		} else if i%4 == 3 {
 			curvedOffsetCase(o, r, i)
+		} else if i%4 == 1 {
+			plateOffsetCase(o, r, i)
 		} else {
 			offsetCase(o, r, i)
 		}
@@ -374,7 +376,7 @@ func offsetCase(o *out.W, r *rng.R, i int) {
 		ss[k] = ptTerm(s)
 	}
 	desc["samples_units_2^-30"] = samples
-	term := fmt.Sprintf("mkOC %s %s %s %s %s %s", contourTerm(in[0]), cq.Bool(grow), sq(math.Abs(d)-margin), sq(math.Abs(d)+margin), pathTerm(rc), cq.List(ss))
+	term := fmt.Sprintf("O1 (mkOC %s %s %s %s %s %s)", contourTerm(in[0]), cq.Bool(grow), sq(math.Abs(d)-margin), sq(math.Abs(d)+margin), pathTerm(rc), cq.List(ss))
 	o.Emit(out.Case{I: i, Fam: "offset-" + fam + map[bool]string{true: "-grow", false: "-shrink"}[grow], Coq: term, Desc: desc})
 }
 
@@ -631,7 +633,7 @@ func curvedOffsetCase(o *out.W, r *rng.R, i int) {
 	}
 	desc["samples_units_2^-30"] = samples
 	desc["ellipse_offset_error"], desc["sample_dist"] = ellipseOffsetError(p, math.Abs(d)), sampleDists(in, true, samples)
-	term := fmt.Sprintf("mkOC %s %s %s %s %s %s", contourTerm(in), cq.Bool(grow), sq(math.Abs(d)-cmargin), sq(math.Abs(d)+cmargin), pathTerm(rc), cq.List(ss))
+	term := fmt.Sprintf("O1 (mkOC %s %s %s %s %s %s)", contourTerm(in), cq.Bool(grow), sq(math.Abs(d)-cmargin), sq(math.Abs(d)+cmargin), pathTerm(rc), cq.List(ss))
 	o.Emit(out.Case{I: i, Fam: "offset-curved-" + fam + map[bool]string{true: "-grow", false: "-shrink"}[grow], Coq: term, Desc: desc})
 }
 
@@ -700,4 +702,61 @@ func ellipseOffsetError(p *canvas.Path, d float64) float64 {
 		}
 	}
 	return worst
+}
+
+
+// plateOffsetCase: Offset of a path of two closed contours of opposite orientation (a plate with a hole, the hole listed first
+// in half of the cases): every contour moves to its own right-hand side, so the filled region grows or shrinks as a whole
+func plateOffsetCase(o *out.W, r *rng.R, i int) {
+	scale := rng.Pick(r, []float64{1, 0.5, 2})
+	x0, y0 := r.Range(-10, -6), r.Range(-10, -6)
+	x1, y1 := r.Range(6, 10), r.Range(6, 10)
+	outer := gen.Rect(x0, y0, x1, y1) // counter-clockwise
+	hole := gen.Reverse(gen.Rect(x0+r.Range(3, 5), y0+r.Range(3, 5), x1-r.Range(3, 5), y1-r.Range(3, 5)))
+	ccwOuter := true
+	if r.Bool() { // both reversed: a clockwise plate with a counter-clockwise hole
+		outer, hole = gen.Reverse(outer), gen.Reverse(hole)
+		ccwOuter = false
+	}
+	cs := [][]gen.IPt{outer, hole}
+	if r.Bool() {
+		cs[0], cs[1] = cs[1], cs[0]
+	}
+	p := &canvas.Path{}
+	for _, c := range cs {
+		p.MoveTo(float64(c[0].X)*scale, float64(c[0].Y)*scale)
+		for _, v := range c[1:] {
+			p.LineTo(float64(v.X)*scale, float64(v.Y)*scale)
+		}
+		p.Close()
+	}
+	in, ok := decodeFlat(p)
+	if !ok || len(in) != 2 {
+		return
+	}
+	d := rng.Pick(r, []float64{0.25, 0.5, 1}) * scale
+	if r.Bool() {
+		d = -d
+	}
+	grow := (d > 0) == ccwOuter
+	desc := map[string]interface{}{"path": p.String(), "offset": d, "ccw": ccwOuter, "tolerance": tol}
+	res := runOp(func() *canvas.Path { return p.Copy().Offset(d, tol).Flatten(ftol) })
+	if res.panic != "" || res.hang {
+		desc["panic"], desc["hang"] = res.panic, res.hang
+		o.Emit(out.Case{I: i, Fam: "offset-plate", Coq: "", Desc: desc})
+		return
+	}
+	rc, ok := decodeFlat(res.p)
+	if !ok {
+		return
+	}
+	desc["R"] = res.p.String()
+	samples := append(samplesAround(r, in[0], true, math.Abs(d), 1.5), samplesAround(r, in[1], true, math.Abs(d), 1.5)...)
+	ss := make([]string, len(samples))
+	for k, s := range samples {
+		ss[k] = ptTerm(s)
+	}
+	desc["samples_units_2^-30"] = samples
+	term := fmt.Sprintf("O2 (mkOC2 %s %s %s %s %s %s)", pathTerm(in), cq.Bool(grow), sq(math.Abs(d)-margin), sq(math.Abs(d)+margin), pathTerm(rc), cq.List(ss))
+	o.Emit(out.Case{I: i, Fam: "offset-plate" + map[bool]string{true: "-grow", false: "-shrink"}[grow], Coq: term, Desc: desc})
 }
